@@ -272,6 +272,23 @@ func (s *Session) setval(name string, v int64, isCalled bool) {
 // ---------------------------------------------------------------- sessions / transactions
 type undoRec func()
 
+// IsoLevel: the isolation levels pgsem models (Transaction Isolation, chapter 13.2).  READ UNCOMMITTED is READ COMMITTED
+// ("PostgreSQL's Read Uncommitted mode behaves like Read Committed", 13.2).  SERIALIZABLE (13.2.3: REPEATABLE READ plus predicate-lock
+// monitoring of read/write dependencies) is NOT modelled: asking for it is an error, never a silent downgrade.
+type IsoLevel int
+
+const (
+	IsoReadCommitted IsoLevel = iota
+	IsoRepeatableRead
+)
+
+func (l IsoLevel) String() string {
+	if l == IsoRepeatableRead {
+		return "repeatable read"
+	}
+	return "read committed"
+}
+
 type Tx struct {
 	id         uint64
 	undo       []undoRec
@@ -280,6 +297,14 @@ type Tx struct {
 	cid        uint32
 	savepoints []savepoint
 	explicit   bool
+	// REPEATABLE READ (13.2.2): "sees a snapshot as of the start of the first non-transaction-control statement in the transaction,
+	// not as of the start of the current statement within the transaction": snap is fixed by the first statement that runs after
+	// BEGIN (snapTaken) and every later statement - those of triggers and PL/pgSQL functions included - reads from it.  Waiting for
+	// or obtaining a lock (row, unique index, advisory) never refreshes it.
+	iso       IsoLevel
+	snapTaken bool
+	snap      uint64
+	readOnly  bool // READ ONLY access mode (SET TRANSACTION): INSERT / UPDATE / DELETE fail with 25006
 }
 type savepoint struct {
 	name string
@@ -306,6 +331,18 @@ type Session struct {
 	seqCached      map[string]*seqCache // values of CACHE n sequences preallocated by this session
 	advWait        bool                 // parked in Block for the advisory lock advWaitKey
 	advWaitKey     int64
+	// defaults of the session's transactions (default_transaction_isolation / default_transaction_read_only, set by SET SESSION
+	// CHARACTERISTICS AS TRANSACTION ...); a BEGIN / SET TRANSACTION that names a mode overrides them for one transaction
+	defIso      IsoLevel
+	defReadOnly bool
+}
+
+// Isolation reports the isolation level of the session's open transaction (the session default when none is open).
+func (s *Session) Isolation() IsoLevel {
+	if s.tx != nil {
+		return s.tx.iso
+	}
+	return s.defIso
 }
 
 // Xid is the id of the session's open transaction (0 when none).
@@ -355,7 +392,33 @@ func (s *Session) begin(explicit bool) {
 	xid := s.db.nextXid
 	s.db.nextXid++
 	s.db.tx[xid] = &txStatus{}
-	s.tx = &Tx{id: xid, explicit: explicit}
+	s.tx = &Tx{id: xid, explicit: explicit, iso: s.defIso, readOnly: s.defReadOnly}
+}
+
+func (db *DB) noteRefusedIsolation() {
+	db.mu.Lock()
+	db.Stats["isolation_refused"]++
+	db.mu.Unlock()
+}
+
+// isoOf maps the isolation level named by a statement; SERIALIZABLE is refused (see IsoLevel).
+func isoOf(name string) IsoLevel {
+	switch name {
+	case "repeatable read":
+		return IsoRepeatableRead
+	case "serializable":
+		panic(errf("0A000", "pgsem does not model ISOLATION LEVEL SERIALIZABLE (Transaction Isolation 13.2.3: predicate locks / serialization anomalies); refusing instead of downgrading"))
+	}
+	return IsoReadCommitted // read committed, read uncommitted (13.2: "Read Uncommitted mode behaves like Read Committed")
+}
+
+func (tx *Tx) setModes(t *TxStmt) {
+	if t.Iso != "" {
+		tx.iso = isoOf(t.Iso)
+	}
+	if t.Access != "" {
+		tx.readOnly = t.Access == "read only"
+	}
 }
 
 func (s *Session) stmtTime() TS { return s.stmtTS }
@@ -391,6 +454,18 @@ func (s *Session) finish(commit bool) {
 	}
 	s.tx = nil
 	db.cond.Broadcast()
+}
+
+// failTx: an error raised by a transaction-control statement inside a transaction block aborts it like any other error
+func (s *Session) failTx() {
+	if s.tx == nil || !s.tx.explicit || s.tx.failed {
+		return
+	}
+	if len(s.tx.savepoints) == 0 {
+		s.abortKeepBlock()
+	} else {
+		s.tx.failed = true
+	}
 }
 
 // abortKeepBlock: the transaction is over for everybody else (undone, marked aborted, locks released) while the session
@@ -629,7 +704,17 @@ func (s *Session) execOne(st Stmt, sql string) (res *Result, err error) {
 		}
 	}()
 	s.tx.cid++
-	ex := &Exec{db: db, sess: s, snap: db.commitSeq, cid: s.tx.cid}
+	// READ COMMITTED (13.2.1): "a SELECT query (without a FOR UPDATE/SHARE clause) sees only data committed before the query began":
+	// one snapshot per statement.  REPEATABLE READ (13.2.2): the snapshot of the transaction's first statement, for every statement.
+	snap := db.commitSeq
+	if _, utility := st.(*Noop); s.tx.iso == IsoRepeatableRead && !(utility && !s.tx.snapTaken) { // SET / SHOW / ... need no snapshot
+		if !s.tx.snapTaken {
+			s.tx.snap, s.tx.snapTaken = db.commitSeq, true
+			db.Stats["repeatable_read_snapshots"]++
+		}
+		snap = s.tx.snap
+	}
+	ex := &Exec{db: db, sess: s, snap: snap, cid: s.tx.cid}
 	res = ex.runTop(st)
 	for len(ex.after) > 0 {
 		q := ex.after
@@ -644,15 +729,63 @@ func (s *Session) execOne(st Stmt, sql string) (res *Result, err error) {
 	return res, nil
 }
 
-func (s *Session) execTx(t *TxStmt) (*Result, error) {
+func (s *Session) execTx(t *TxStmt) (res *Result, err error) {
+	defer func() { // isoOf refuses SERIALIZABLE by panicking with an SQLError
+		if r := recover(); r != nil {
+			e, ok := r.(*SQLError)
+			if !ok {
+				panic(r)
+			}
+			s.db.Stats["isolation_refused"]++
+			s.failTx()
+			res, err = nil, e
+		}
+	}()
 	switch t.Kind {
 	case "begin":
 		if s.tx != nil {
-			return &Result{Tag: "BEGIN"}, nil
+			return &Result{Tag: "BEGIN"}, nil // WARNING: there is already a transaction in progress (the modes are ignored, as in PostgreSQL)
+		}
+		if t.Iso != "" {
+			isoOf(t.Iso) // refuse before anything is opened
 		}
 		s.begin(true)
+		s.tx.setModes(t)
+		if s.tx.iso != IsoReadCommitted {
+			s.db.Stats["begin_"+strings.ReplaceAll(s.tx.iso.String(), " ", "_")]++
+		}
+		if s.tx.readOnly {
+			s.db.Stats["begin_read_only"]++
+		}
 		s.txHook("begin")
 		return &Result{Tag: "BEGIN"}, nil
+	case "set_tx":
+		// SET TRANSACTION (SQL command SET TRANSACTION): characteristics of the current transaction; "the transaction isolation level
+		// cannot be changed after the first query or data-modification statement ... of a transaction has been executed" (25001).
+		// Outside a transaction block it has no effect (PostgreSQL emits WARNING 25P01).
+		if s.tx == nil || !s.tx.explicit {
+			if t.Iso != "" {
+				isoOf(t.Iso)
+			}
+			return &Result{Tag: "SET"}, nil
+		}
+		if s.tx.failed {
+			return nil, errf("25P02", "current transaction is aborted, commands ignored until end of transaction block")
+		}
+		if t.Iso != "" && s.tx.cid > 0 && isoOf(t.Iso) != s.tx.iso {
+			s.failTx()
+			return nil, errf("25001", "SET TRANSACTION ISOLATION LEVEL must be called before any query")
+		}
+		s.tx.setModes(t)
+		return &Result{Tag: "SET"}, nil
+	case "set_session_tx":
+		if t.Iso != "" {
+			s.defIso = isoOf(t.Iso)
+		}
+		if t.Access != "" {
+			s.defReadOnly = t.Access == "read only"
+		}
+		return &Result{Tag: "SET"}, nil
 	case "commit":
 		if s.tx == nil {
 			return &Result{Tag: "COMMIT"}, nil
